@@ -15,7 +15,8 @@ import (
 // - Otherwise, replaces the base path with the request path.
 // - Normalises/guards against path traversal (including percent-encoded ..) for non-preserve mode.
 // - Optimises the common case where the endpoint path is empty or "/".
-// Note: path.Clean collapses repeated slashes and removes trailing slashes; this function accepts that.
+// Note: path.Clean collapses repeated slashes and removes trailing slashes; in preserve_path mode this
+// function accepts that. Without preserve_path a trailing slash survives the traversal guard.
 // See [OLLA-GH-80] https://github.com/thushan/olla/issues/80
 func BuildTargetURL(r *http.Request, endpoint *domain.Endpoint, proxyPrefix string) *url.URL {
 	targetPath := util.StripPrefix(r.URL.Path, proxyPrefix)
@@ -43,7 +44,7 @@ func BuildTargetURL(r *http.Request, endpoint *domain.Endpoint, proxyPrefix stri
 		if clean == "" {
 			clean = "/"
 		}
-		targetPath = clean
+		targetPath = keepTrailingSlash(targetPath, clean)
 	}
 
 	// Fast path: endpoint has no base path.
@@ -60,6 +61,16 @@ func BuildTargetURL(r *http.Request, endpoint *domain.Endpoint, proxyPrefix stri
 	u.RawQuery = r.URL.RawQuery // always copy; empty is fine
 	u.Fragment = ""
 	return u
+}
+
+// keepTrailingSlash gives a cleaned path back the trailing slash of the path it was made from
+// (path.Join / path.Clean drop it; /v1/collections/ and /v1/collections are different resources).
+// A path that ends in a dot segment names the directory itself and is left as cleaned.
+func keepTrailingSlash(original, cleaned string) string {
+	if strings.HasSuffix(original, "/") && !strings.HasSuffix(cleaned, "/") {
+		return cleaned + "/"
+	}
+	return cleaned
 }
 
 // containsDotDot returns true if any decoded path segment is ".." or "."
